@@ -174,6 +174,11 @@ def step (s : Unit) (line : String) : Unit × String :=
                        ++ " | " ++ natToHex (stateDiffLength d)
           | none => "bad-op")
     | none => (s, "bad-op")
+  | "vtx" :: rest =>
+    -- VerifyTransactions on transactions whose model hash is the declared literal itself
+    match parseAll (do let n ← pNet; let v ← pBytes; let txs ← pList pTx; pure (n, v, txs)) rest with
+    | some (n, v, txs) => (s, toString (verifyTransactions n.chainId txs v))
+    | none => (s, "bad-op")
   | "cc" :: rest =>
     match parseAll (do let a ← pU64; let b ← pU64; let c ← pU64; let d ← pNat; pure (a, b, c, d)) rest with
     | some (a, b, c, d) => (s, natToHex (concatCounts a b c d))
